@@ -336,6 +336,12 @@ func c11MakeSign(r *prng.R, keyBytes []byte) *c11In {
 	partial := r.Chance(1, 3)
 	for i := 0; i < nIn; i++ {
 		gi := gen.In{TxID: r.Bytes(32), Vout: gen.U32(r), Seq: gen.U32(r), PrevScript: key.p2pkh(), Unlock: []byte{}}
+		switch r.Intn(8) { // P2PKH outputs that commit to the key's uncompressed form, or to another key altogether
+		case 0:
+			gi.PrevScript = key.p2pkhUncompressed()
+		case 1:
+			gi.PrevScript = gen.P2PKH(r.Bytes(20))
+		}
 		if r.Chance(1, 5) {
 			gi.Unlock, gi.UnlockNil = nil, true
 		}
